@@ -267,3 +267,39 @@ Example C07_session_nonvacuous_run :
   run_session ex_family ex_ops = [RValue (Ok ex_q1); RCells (Ok ex_f2_cells); RDone; RValue (Ok ex_f2)].
 Proof. exact ex_session_run. Qed.
 Print Assumptions C07_session_nonvacuous_run.
+
+(* 6. the file leg, which headers become columns: RowDataSheet._get_headers (Io/SheetHeaders.v, tied to the code by the
+      probe sheet_keeps_single_columns and by the harness's header stream, engine 107 fn 11; the ORDER of the columns is
+      not modelled).  Finding single-column-sheet-export-crashes: the full statement is decided by the probe. *)
+From RPFT Require Import Io.SheetHeaders Io.SheetHeadersFacts.
+
+Theorem C07_sheet_headers_complete_decided :
+  if sheet_keeps_single_columns
+  then forall rows r h, In r rows -> In h r -> In h (sheet_header_set rows)
+  else ~ (forall rows r h, In r rows -> In h r -> In h (sheet_header_set rows)).
+Proof. exact sheet_headers_complete_decided. Qed.
+Print Assumptions C07_sheet_headers_complete_decided.
+
+(* either tree: columns are headers some row writes, no column twice, and rows with two or more columns keep theirs *)
+Theorem C07_sheet_headers_sound : forall rows h, In h (sheet_header_set rows) -> exists r, In r rows /\ In h r.
+Proof. exact sheet_headers_sound. Qed.
+Print Assumptions C07_sheet_headers_sound.
+
+Theorem C07_sheet_headers_nodup : forall rows, NoDup (sheet_header_set rows).
+Proof. exact sheet_headers_nodup. Qed.
+Print Assumptions C07_sheet_headers_nodup.
+
+Theorem C07_sheet_headers_wide_rows : forall rows r h,
+  In r rows -> (2 <= length r)%nat -> In h r -> In h (sheet_header_set rows).
+Proof. exact sheet_headers_wide_rows. Qed.
+Print Assumptions C07_sheet_headers_wide_rows.
+
+(* the two shapes of the finding: no column at all (TypeError in convert_to_tablib) / the cell of a one-column row
+   next to a wider row is not in the sheet *)
+Theorem C07_sheet_headers_witness :
+  sheet_header_set [[w_e1]; [w_e1]] = (if sheet_keeps_single_columns then [w_e1] else [])
+  /\ sheet_header_set [[w_a; w_b]; [w_c]] = (if sheet_keeps_single_columns then [w_a; w_b; w_c] else [w_a; w_b])
+  /\ sheet_cell (sheet_header_set [[w_a; w_b]; [w_c]]) [(w_c, [118%N])] w_c
+     = (if sheet_keeps_single_columns then Some [118%N] else None).
+Proof. exact sheet_headers_witness. Qed.
+Print Assumptions C07_sheet_headers_witness.
